@@ -2,9 +2,10 @@
    input  line: <indent> TAB <cst dump> TAB <escaped text> TAB <cst dump of the output | ->
      cst dump (harness/lang/src/bin/fmt_run.rs cst_dump):  (Kind child ...) | [TokenKind QUOTED (trivia..) (trivia..)]
      trivia: L QUOTED, B QUOTED, N, W ; escapes in quoted strings and in <escaped text>: backslash n r t backslash quote
-   output line: F<0|1> TAB A<0|1> TAB S<0|1> TAB D<0|1|-> TAB <dwords> TAB <cst_words>
+   output line: F<0|1> TAB A<0|1> TAB S<0|1> TAB D<0|1|-> TAB <dwords> TAB <cst_words> TAB K<0|1>
      F in_fragment, A is_rendering (doc_of ind cst) text, S safe_breaks (doc_of ind cst),
-     D doc_of of the output's cst equals doc_of of the input's cst; words are escaped and joined by 0x1f *)
+     D doc_of of the output's cst equals doc_of of the input's cst; words are escaped and joined by 0x1f,
+     K keeps_breaks ind cst (the document forces exactly the line breaks of the source at the sensitive positions) *)
 open Fmt_model
 
 let rec nat_of_int i = if i <= 0 then O else S (nat_of_int (i - 1))
@@ -42,6 +43,7 @@ let tkind_of = function
   | "ArrayBegin" -> KArrayBegin | "ArrayEnd" -> KArrayEnd
   | "Ident" | "IdentFunction" | "IdentVariable" -> KIdent
   | "MacroExpand" -> KMacroExpand | "LeftArrow" -> KLeftArrow | "DoubleColon" -> KDoubleColon
+  | "Macro" -> KMacro | "Mod" -> KMod | "Use" -> KUse | "Pub" -> KPub
   | _ -> KOther
 
 let skind_of = function
@@ -56,9 +58,13 @@ let skind_of = function
   | "RecordExpr" -> SRecordExpr | "MacroExpansion" -> SMacroExpansion | "QualifiedPath" -> SQualifiedPath
   | "IntLiteral" | "FloatLiteral" | "StringLiteral" | "SelfLiteral" | "NowLiteral" | "SampleRateLiteral"
   | "PlaceHolderLiteral" | "Identifier" | "FieldAccess" | "IndexExpr" | "TypeAnnotation" | "Pattern" | "SinglePattern"
-  | "ParamDefault" | "ExprList" | "EscapeExpr" | "BracketExpr" | "UnionType" | "IncludeStmt" | "StageDecl" -> SLeaf false
-  | "PrimitiveType" | "UnitType" | "TypeIdent" | "FunctionType" | "ArrayType" | "CodeType" -> SLeaf true
-  | _ -> SOutside
+  | "ParamDefault" | "ExprList" | "EscapeExpr" | "BracketExpr" | "IncludeStmt" | "StageDecl" -> SLeaf false
+  | "PrimitiveType" | "UnitType" | "TypeIdent" | "FunctionType" | "ArrayType" | "CodeType" | "UnionType" -> SLeaf true
+  | "MatchExpr" | "MatchArm" | "MatchPattern" | "ConstructorPattern" | "TypeDecl" | "VariantDef" -> SSpaced
+  | "MatchArmList" -> SMatchArmList
+  | "ModuleDecl" -> SModuleDecl | "UseStmt" -> SUseStmt | "UseTargetMultiple" -> SUseMultiple
+  | "UseTargetWildcard" -> SUseWildcard | "VisibilityPub" -> SVisibilityPub
+  | _ -> SOutside   (* Error *)
 
 let parse_cst (s : string) : cst =
   let pos = ref 0 in
@@ -142,7 +148,11 @@ let () =
                let a = frag && List.exists (fun r -> is_rendering d (chars_of_string r)) cands in
                let s = safe_breaks d in
                let dd = if out_cst = "-" then "-" else b2s (same_doc (doc_of ind (parse_cst out_cst)) d) in
-               Printf.printf "F%s\tA%s\tS%s\tD%s\t%s\t%s\n" (b2s frag) (b2s a) (b2s s) dd (words_str (dwords d)) (words_str (cst_words c))
+               let k = keeps_breaks ind c in
+               (if Sys.getenv_opt "FMT_DRV_DEBUG" <> None then
+                  let fl l = String.concat "" (List.map b2s l) in
+                  Printf.eprintf "src_observed=%s doc_flags=%s\n" (fl (src_observed c)) (fl (doc_flags d)));
+               Printf.printf "F%s\tA%s\tS%s\tD%s\t%s\t%s\tK%s\n" (b2s frag) (b2s a) (b2s s) dd (words_str (dwords d)) (words_str (cst_words c)) (b2s k)
              with Failure m -> Printf.printf "E%s\n" (escape m)
                 | Invalid_argument m -> Printf.printf "E%s\n" (escape m))
         | _ -> print_endline "Ebad request"
